@@ -398,7 +398,7 @@ def jobs(tier):
         out.append({"harness": "state", "params": {"oid_is_path": True, "K": 2}, "label": "state-ops/path-ids/2"})
         for lp in (True, False):
             out.append({"harness": "state2", "params": {"local_path_ids": lp, "K": 2, "size": "full"}, "label": "from-synced-base/%s/2/full" % ("path+object-ids" if lp else "object-ids")})
-        out.append({"harness": "state2", "params": {"local_path_ids": False, "K": 3, "size": "medium"}, "label": "from-synced-base/object-ids/3/medium"})
+        out.append({"harness": "state2", "params": {"local_path_ids": False, "K": 3, "size": "tiny"}, "label": "from-synced-base/object-ids/3/tiny"})
     for f, sl in ((("oid", 1), ("path", 1)) if q else (("oid", 2), ("path", 2), ("mixed", 2), ("oid-ci", 1), ("oid-filt", 1))):
         for side in (0, 1):
             for op in OPS:
